@@ -195,6 +195,51 @@ func (ex *Exec) applyContract(st *State, fr *Frame, ct *Contract, fn *ssa.Functi
 	if in != nil {
 		where = ex.pos(in.Pos())
 	}
+	// Pointers to a struct that lives inside something else (an embedded struct of a heap object: &b.bucket, or a
+	// local struct variable: &b) are passed by copy-in / copy-out through a temporary object, so that the callee's
+	// contract, which speaks about an object of the pointee type, and the caller's view of the enclosing value
+	// stay coherent. This assumes the callee reaches the pointee only through this pointer; it is refused when
+	// another parameter could reach the enclosing object.
+	type viewBack struct {
+		tmp, orig *Ptr
+	}
+	var backs []viewBack
+	if !ct.External {
+		copied := false
+		for i, a := range args {
+			p, ok := a.(*Ptr)
+			if !ok || (len(p.Path) == 0 && p.Kind != PCell) || p.Kind == PGlobal {
+				continue
+			}
+			pt := ex.pointeeType(p)
+			if pt == nil {
+				continue
+			}
+			if _, isStruct := under(pt).(*types.Struct); !isStruct {
+				continue
+			}
+			if p.Kind == PObj {
+				for k := 0; k < sig.Params().Len(); k++ {
+					if q, ok := under(sig.Params().At(k).Type()).(*types.Pointer); ok && types.Identical(q.Elem(), p.Base) {
+						ex.unsup("interior pointer passed to %s together with a pointer to the enclosing %s", ct.Key, p.Base)
+					}
+				}
+			}
+			if !copied {
+				args = append([]Val(nil), args...)
+				copied = true
+			}
+			tmp := &Ptr{Kind: PObj, Ref: ex.newRef(st), Base: pt}
+			ex.store(st, fr, tmp, ex.load(st, p), nil)
+			args[i] = tmp
+			backs = append(backs, viewBack{tmp, p})
+		}
+	}
+	defer func() {
+		for _, b := range backs {
+			ex.store(st, fr, b.orig, ex.load(st, b.tmp), in)
+		}
+	}()
 	pre := st.snapshot()
 	ev := ex.sigEnv(st, ct, fn, sig, args, nil, pre, nil)
 	short := site
@@ -226,6 +271,38 @@ func (ex *Exec) applyContract(st *State, fr *Frame, ct *Contract, fn *ssa.Functi
 		for i, cl := range fr.contract.Asserts["call "+site] {
 			lev := ex.loopEnv(st, fr)
 			var g T
+			if cl.Kind == "cases" {
+				// "at call X@n: cases label: e1 || e2 || ...": the disjunction is an obligation; the rest of the
+				// path is then verified once per alternative (a proof by cases chosen by the contract author)
+				var alts []Expr
+				var flat func(e Expr)
+				flat = func(e Expr) {
+					if b, ok := e.(*EBinary); ok && b.Op == "||" {
+						flat(b.X)
+						flat(b.Y)
+						return
+					}
+					alts = append(alts, e)
+				}
+				flat(cl.E)
+				key := fmt.Sprintf("%s|%s|%s", fnKey, short, labelOr(cl, i))
+				if st.caseChoice == nil {
+					st.caseChoice = map[string]int{}
+				}
+				choice, chosen := st.caseChoice[key]
+				if !chosen {
+					ex.oblige(st, fnKey, fmt.Sprintf("at(%s):%s", short, labelOr(cl, i)), clauseTags(cl, fr.contract), lev.Bool(cl.E), where, cl.Src)
+					for k := 1; k < len(alts); k++ {
+						o := st.clone()
+						o.caseChoice[key] = k
+						ex.pendingForks = append(ex.pendingForks, o)
+					}
+					st.caseChoice[key] = 0
+					choice = 0
+				}
+				st.assume(lev.Bool(alts[choice]))
+				continue
+			}
 			if cl.Kind == "hint" {
 				ok := func() (ok bool) {
 					defer func() {
